@@ -202,7 +202,8 @@ claim("C18", "other",
       "copies, split windows and stored components - all built through them, see C04's SeismicRecording3C.__init__ and C10's split - share no "
       "storage with their source); the properties n_samples, fs, fnyq and time(); TimeSeries.trim raises IndexError iff start < 0, start >= end "
       "or end beyond the last sample, and otherwise keeps exactly the samples from the first one nearest start through the first one nearest "
-      "end (inclusive, start index <= end index). Bounded (labelled): JSON save/load restores every sample bit for bit, dt, the orientation "
+      "end (inclusive, start index <= end index). SeismicRecording3C._to_dict puts every sample of every component, the time step and the orientation into the dictionary handed to json, and _from_dict builds a recording carrying exactly the samples, time step and (reduced mod 360) orientation of the dictionary it is given; an orientation in [0, 360) is unchanged by the reduction (lemma). "
+      "Bounded (labelled): JSON save/load restores every sample bit for bit, dt, the orientation "
       "modulo 360 and the meta content after random sequences of trim / filter / detrend / taper / re-orientation (json is external); "
       "np.shares_memory on every copy / split / component pair plus a behavioural edit test; record-level trim.",
       TB + "A-NP-ALLOC (np.array copies), A-ARGMIN, A-JSON-FLOAT (repr(float) round trip, exercised not proved).",
